@@ -8,7 +8,8 @@ PROPS["C20"] = P(
     "take(m) of each for m in 0,1,n-1,n,n+5, split into histories that rewind an untouched Take (stratum take/no-poll-before-rewind) and histories that poll before rewinding (take/polled-before-rewind: DESIGN 7 item 16). "
     "Inputs: empty, single newline, with/without final newline, CRLF, mixed terminators, lone CR, empty lines, unicode, 300 lines, lines around 128/8192/16384 bytes, a 1 MB line, 10^5 lines (10^6 thorough), random texts. "
     "Builder level (stratum forced-retry): for each file/compressed kind (and its take(n), as the crate's vfunc/vfilter binaries use it) a VBuilder seed is pre-screened whose first attempt fails on the keys; the build over the lender under test, wrapped in a counting lender, must be lent all n keys in every pass and map every key. "
-    "distinct_nontrivial = distinct cells (lender kind | input | take class | poll class; for random rounds the hash of kind+text+histories; for builds kind | n | retried) whose expected list has >= 2 items (builds: at least one rewind happened)",
+    "distinct_nontrivial = distinct cells (lender kind | input | take class | poll class; for random rounds the hash of kind+text+histories; for builds kind | n | retried) whose expected list has >= 2 items (builds: at least one rewind happened)"
+    ' Passes consumed through Lender::nth / advance_by; inputs with invalid UTF-8 lines (error items are part of the sequence); K02 is identified by the exact item count its mechanism predicts. ',
     dict(builds=["DBG", "UBC"]),
     dict(builds=["DBG", "UBC"]),
     hang="violation",
